@@ -136,6 +136,7 @@ type tplTok struct {
 	re   string
 	suf  string
 	verb string
+	sp   int // RouterJSR311 templates, JAX-RS style blanks: 1 "{name : re}", 2 "{ name: re }", 3 "{ name }" / "{name :*}"
 }
 
 func (t tplTok) render() string {
@@ -145,12 +146,24 @@ func (t tplTok) render() string {
 		s = t.text
 	case 1:
 		s = "{" + t.name + "}"
+		if t.sp == 3 {
+			s = "{ " + t.name + " }"
+		}
 	case 2:
 		s = "{" + t.name + ":" + t.re + "}"
+		switch t.sp {
+		case 1:
+			s = "{" + t.name + " : " + t.re + "}"
+		case 2:
+			s = "{ " + t.name + ": " + t.re + " }"
+		}
 	case 3:
 		s = "{" + t.name + "}" + t.suf
 	case 4:
 		s = "{" + t.name + ":*}"
+		if t.sp == 3 {
+			s = "{" + t.name + " :*}"
+		}
 	}
 	return s + t.verb
 }
@@ -238,6 +251,15 @@ func genTokens(r *Rng, router int, n int, isRoute bool, used map[string]bool) []
 		}
 		if last && isRoute && router == 0 && t.kind != 4 && r.Pct(12) {
 			t.verb = r.Pick(verbPool)
+		}
+		if router == 1 && r.Pct(12) {
+			// blanks around the name and the expression (the compiled template trims them; CurlyRouter does not)
+			switch t.kind {
+			case 1, 4:
+				t.sp = 3
+			case 2:
+				t.sp = 1 + r.Intn(2)
+			}
 		}
 		toks = append(toks, t)
 	}
